@@ -8,6 +8,7 @@ import (
 	"sort"
 	"strings"
 	"testing"
+	"time"
 
 	"pgregory.net/rapid"
 )
@@ -15,22 +16,23 @@ import (
 // C17 — history and status tell the truth about the ledger.
 
 type histRow struct {
-	ID       int64
-	Hash     string
-	Height   uint32
-	Executed int64
-	TxIndex  int
-	Action   int
-	From     string
+	ID        int64
+	Hash      string
+	Height    uint32
+	Executed  int64
+	TxIndex   int
+	Action    int
+	From      string
 	FromAsset string
-	FromAmt  int64
-	ToAsset  string
-	ToAmt    int64
-	Outputs  string
+	FromAmt   int64
+	ToAsset   string
+	ToAmt     int64
+	Outputs   string
+	TS        int64
 }
 
 func readHistory(db *sql.DB) ([]histRow, error) {
-	rows, err := db.Query(`SELECT b.history_id, b.entry_hash, b.height, b.executed, t.tx_index, t.action_type, t.from_address, t.from_asset, t.from_amount, t.to_asset, t.to_amount, t.outputs
+	rows, err := db.Query(`SELECT b.history_id, b.entry_hash, b.height, b.executed, t.tx_index, t.action_type, t.from_address, t.from_asset, t.from_amount, t.to_asset, t.to_amount, t.outputs, b.timestamp
 		FROM pn_history_txbatch b, pn_history_transaction t WHERE b.entry_hash = t.entry_hash ORDER BY b.history_id, t.tx_index`)
 	if err != nil {
 		return nil, err
@@ -41,7 +43,7 @@ func readHistory(db *sql.DB) ([]histRow, error) {
 		var r histRow
 		var eh, from []byte
 		var outputs []byte
-		if err := rows.Scan(&r.ID, &eh, &r.Height, &r.Executed, &r.TxIndex, &r.Action, &from, &r.FromAsset, &r.FromAmt, &r.ToAsset, &r.ToAmt, &outputs); err != nil {
+		if err := rows.Scan(&r.ID, &eh, &r.Height, &r.Executed, &r.TxIndex, &r.Action, &from, &r.FromAsset, &r.FromAmt, &r.ToAsset, &r.ToAmt, &outputs, &r.TS); err != nil {
 			return nil, err
 		}
 		r.Hash, r.From, r.Outputs = hex.EncodeToString(eh), hex.EncodeToString(from), string(outputs)
@@ -195,6 +197,27 @@ func replayHistory(db *sql.DB, era Era) string {
 }
 
 // pageAll follows nextoffset from 0 and returns the txids seen and the reported count.
+// apiContent collects, per action key, what the API said about the action (canonical form).
+var apiContent = map[string]string{}
+
+func canonOutputs(raw string) string {
+	if raw == "" || raw == "null" {
+		return "[]"
+	}
+	var outs []struct {
+		Address string `json:"address"`
+		Amount  int64  `json:"amount"`
+	}
+	if err := json.Unmarshal([]byte(raw), &outs); err != nil {
+		return "unparsable:" + raw
+	}
+	parts := make([]string, 0, len(outs))
+	for _, o := range outs {
+		parts = append(parts, fmt.Sprintf("%s:%d", o.Address, o.Amount))
+	}
+	return "[" + strings.Join(parts, ",") + "]"
+}
+
 func pageAll(api *API, params map[string]interface{}) ([]string, int, string) {
 	var seen []string
 	count := -1
@@ -219,8 +242,19 @@ func pageAll(api *API, params map[string]interface{}) ([]string, int, string) {
 		}
 		var r struct {
 			Actions []struct {
-				TxID string `json:"txid"`
-				H    int64  `json:"height"`
+				TxID     string          `json:"txid"`
+				H        int64           `json:"height"`
+				Hash     string          `json:"hash"`
+				Executed int64           `json:"executed"`
+				TxIndex  int             `json:"txindex"`
+				Action   int             `json:"txaction"`
+				From     string          `json:"fromaddress"`
+				FromA    string          `json:"fromasset"`
+				FromAmt  int64           `json:"fromamount"`
+				ToA      string          `json:"toasset"`
+				ToAmt    int64           `json:"toamount"`
+				Outputs  json.RawMessage `json:"outputs"`
+				TS       time.Time       `json:"timestamp"`
 			} `json:"actions"`
 			Count      int `json:"count"`
 			NextOffset int `json:"nextoffset"`
@@ -233,7 +267,14 @@ func pageAll(api *API, params map[string]interface{}) ([]string, int, string) {
 		}
 		count = r.Count
 		for _, a := range r.Actions {
-			seen = append(seen, fmt.Sprintf("%s@%d", a.TxID, a.H))
+			k := fmt.Sprintf("%s@%d", a.TxID, a.H)
+			seen = append(seen, k)
+			content := fmt.Sprintf("hash=%s idx=%d executed=%d action=%d from=%s %s %d to=%s %d outputs=%s ts=%d",
+				a.Hash, a.TxIndex, a.Executed, a.Action, a.From, a.FromA, a.FromAmt, a.ToA, a.ToAmt, canonOutputs(string(a.Outputs)), a.TS.Unix())
+			if prev, ok := apiContent[k]; ok && prev != content {
+				return nil, 0, fmt.Sprintf("two queries describe action %s differently:\n  %s\n  %s", k, prev, content)
+			}
+			apiContent[k] = content
 		}
 		if r.NextOffset == 0 {
 			return seen, count, ""
@@ -259,7 +300,18 @@ func checkPaging(n *Node, st *Stats, rt *rapid.T) string {
 	}
 	key := func(r histRow) string { return fmt.Sprintf("%d-%s@%d", r.TxIndex, r.Hash, r.Height) }
 	byHash, byHeight, byAddr := map[string][]string{}, map[uint32][]string{}, map[string][]string{}
+	apiContent = map[string]string{}
+	rowContent := map[string]string{}
 	for _, r := range rows {
+		var fa [32]byte
+		fb, _ := hex.DecodeString(r.From)
+		copy(fa[:], fb)
+		outs := "[]"
+		if r.Action == 1 || r.ToAsset == "PEG" { // outputs are exposed for transfers and conversions into PEG
+			outs = canonOutputs(r.Outputs)
+		}
+		rowContent[key(r)] = fmt.Sprintf("hash=%s idx=%d executed=%d action=%d from=%s %s %d to=%s %d outputs=%s ts=%d",
+			r.Hash, r.TxIndex, r.Executed, r.Action, faString(fa), r.FromAsset, r.FromAmt, r.ToAsset, r.ToAmt, outs, r.TS)
 		byHash[r.Hash] = append(byHash[r.Hash], key(r))
 		byHeight[r.Height] = append(byHeight[r.Height], key(r))
 	}
@@ -361,6 +413,18 @@ func checkPaging(n *Node, st *Stats, rt *rapid.T) string {
 		}
 	}
 	st.Add("paging_queries", int64(queries))
+	// what the API said about each action == what the history tables hold
+	var keys []string
+	for k := range apiContent {
+		keys = append(keys, k)
+	}
+	sort.Strings(keys)
+	for _, k := range keys {
+		if want, ok := rowContent[k]; ok && want != apiContent[k] {
+			return fmt.Sprintf("get-transactions misreports action %s:\n  api:    %s\n  tables: %s", k, apiContent[k], want)
+		}
+	}
+	st.Add("api_actions_compared_field_by_field", int64(len(keys)))
 	return ""
 }
 
